@@ -188,7 +188,7 @@ fn gen(path: &str) {
     let mut out = Out::create(path);
     let mut rng = rng(14);
     let thorough = thorough();
-    let n_data = if thorough { 16000 } else { 2500 };
+    let n_data = if thorough { 3500 } else { 2500 };
     let mut run = 0i64;
     let mut counts = std::collections::BTreeMap::new();
     let mut bump = |k: String| *counts.entry(k).or_insert(0usize) += 1;
